@@ -371,6 +371,29 @@ def rule_rule(ctx) -> None:
     ctx.check(ok, "C12.RULE", f"{dc.qual}/decay-modes", dc.loc(), "decay = 1/(1+alpha*d^2) (attn_quad) or max(rate^d, floor) (exp_floor)", f"decay modes are {shapes}")
 
 
+def rule_tag_values(ctx) -> None:
+    """"seeds exactly the nodes whose label or tag occurs in the input text": a tag is a whole string.  Where the tags of a
+    node are taken from its attrs and walked, a value that is itself a str is ONE tag - `list("zebra")` walks its characters,
+    and the text "a" then seeds a node that is tagged "zebra"."""
+    fn = ctx.func(INNER)
+    rd = ctx.rd(fn)
+    cfg = ctx.cfg(fn)
+    n_l = 0
+    for lp in [x for x in walk_no_defs(fn.node) if isinstance(x, ast.For) and isinstance(x.iter, ast.Name)]:
+        hn = [h for h in cfg.nodes if h.kind == "iter" and h.ast is lp]
+        if not hn:
+            continue
+        sl = rd.slice([lp.iter], hn[0])
+        if not any(isinstance(c, ast.Call) and call_tail(c) == "get" and c.args and const_str(c.args[0]) == "tags" for c in sl.calls()):
+            continue
+        n_l += 1
+        narrowed = any(isinstance(c, ast.Call) and dotted(c.func) == "isinstance" and len(c.args) == 2 and "str" in src(c.args[1]) for c in sl.calls())
+        ctx.check(narrowed, "C12.SEED", ctx.okey(f"{fn.qual}/string-tag-is-one-tag"), fn.loc(lp), "a tags value that is a plain string is wrapped, not iterated",
+                  f"the tags walked by `for {src(lp.target)} in {src(lp.iter)}` come from attrs['tags'] through list(..) with no test for a plain string: a node tagged \"zebra\" gets the tags "
+                  "'z','e','b','r','a' and is seeded by the text \"a\"")
+    ctx.floor("C12.SEED", "loops over a node's tags", n_l, 1)
+
+
 def rule_seed_out(ctx) -> None:
     mk = ctx.func(T1 + ":_match_keywords")
     cfg = ctx.cfg(mk)
@@ -501,6 +524,24 @@ def rule_key_unambiguous(ctx) -> None:
                "first one's deltas - nodes unreachable from its own seeds, and counters for work not done") if bad else "")
 
 
+def rule_perf_caps_engage(ctx) -> None:
+    """"with and without perf caps ... counters that match the work done": the dedupe window and the visited cap are optional
+    containers (None when not configured).  Their classes define __len__, so an instance is falsy while it is empty: a guard
+    `if ring:` skips the very branch that would put the first element in, the container stays empty for the whole call, the
+    cap never engages and its counters (t1_dedup_hits, t1_visited_evicted) are 0 by construction.  Optional containers are
+    tested for None."""
+    from .. import hazards
+    n_fn = 0
+    for fn in ctx.prog.module(T1).funcs.values():
+        n_fn += 1
+        for op, nm, cls in hazards.optional_container_truthiness(ctx, fn):
+            ctx.violation("C12.PAIR", ctx.okey(f"{fn.qual}/optional-container-tested-for-none:{cls}"), fn.loc(op),
+                          f"`{nm}` is None or a {cls}, and is tested by truthiness: {cls} defines __len__, so right after construction it is falsy, the guarded add() is never reached, the "
+                          "container stays empty and the configured window / cap never engages - the run equals the one without perf caps and the cap's counters stay 0")
+    ctx.holds("C12.PAIR", f"{T1}/optional-containers-tested-for-none", "clematis/engine/stages/t1.py",
+              f"{n_fn} functions: no optional sized container is tested by truthiness; " + hazards.controls(ctx, "clematis.engine.health", ["truthy"]))
+
+
 def rule_tallies_accumulate(ctx) -> None:
     """"counters that match the work done": a tally that is folded into a reported total after a loop (`total += tally`) must
     itself be accumulated inside the loop.  A plain assignment there (`tally = ev`, `tally = 1`) keeps the last iteration's
@@ -582,3 +623,5 @@ def run(ctx) -> None:
     rule_seed_out(ctx)
     rule_cachekey(ctx)
     rule_key_unambiguous(ctx)
+    rule_tag_values(ctx)
+    rule_perf_caps_engage(ctx)
